@@ -524,6 +524,7 @@ def bounded(ctx):
         {'op': 'remove_prefix', 'hook': 1, 'choice': []},
         {'op': 'add_hook', 'hook': 0, 'type': 0, 'choice': []},
         {'op': 'add_hook', 'hook': 3, 'type': 0, 'choice': []},
+        {'op': 'add_hook', 'hook': 1, 'type': 0, 'choice': []},           # a hook on the static branch below the fork /a/ -> b | <x>
         {'op': 'remove_hook', 'hook': 0, 'choice': []},
         {'op': 'add_hook', 'hook': 2, 'type': 0, 'choice': []},
     ]
